@@ -189,6 +189,17 @@ func buildPaths(h *expr.HTTPExpr, bodies map[string]map[string]*EndpointBodies, 
 	return paths
 }
 
+// summaryMeta returns the value of the "openapi:summary" meta if set, the
+// value of the deprecated "swagger:summary" meta otherwise.
+func summaryMeta(meta expr.MetaExpr) (string, bool) {
+	for _, n := range []string{"openapi:summary", "swagger:summary"} {
+		if mdata := meta[n]; len(mdata) > 0 {
+			return mdata[0], true
+		}
+	}
+	return "", false
+}
+
 // buildOperation builds the OpenAPI Operation object for the given path.
 func buildOperation(key string, r *expr.RouteExpr, bodies *EndpointBodies, rand *expr.ExampleGenerator) *Operation {
 	e := r.Endpoint
@@ -198,13 +209,11 @@ func buildOperation(key string, r *expr.RouteExpr, bodies *EndpointBodies, rand 
 	// OpenAPI summary
 	var summary string
 	setSummary := func(meta expr.MetaExpr) {
-		for n, mdata := range meta {
-			if (n == "openapi:summary" || n == "swagger:summary") && len(mdata) > 0 {
-				if mdata[0] == "{path}" {
-					summary = r.Path
-				} else {
-					summary = mdata[0]
-				}
+		if s, ok := summaryMeta(meta); ok {
+			if s == "{path}" {
+				summary = r.Path
+			} else {
+				summary = s
 			}
 		}
 	}
@@ -403,10 +412,8 @@ func buildFileServerOperation(key string, fs *expr.HTTPFileServerExpr, api *expr
 	var summary string
 	{
 		summary = fmt.Sprintf("Download %s", fs.FilePath)
-		for n, mdata := range fs.Meta {
-			if (n == "openapi:summary" || n == "swagger:summary") && len(mdata) > 0 {
-				summary = mdata[0]
-			}
+		if s, ok := summaryMeta(fs.Meta); ok {
+			summary = s
 		}
 	}
 
